@@ -14,6 +14,40 @@ fn main() {
     let start: u64 = args.get(4).and_then(|s| s.parse().ok()).unwrap_or(0);
     mlv::runner::install_quiet_panic_hook();
     let mut st = Stats::default();
+    if id == "L32" {
+        // 32-bit-limb stage (run with --target i686-unknown-linux-gnu): the crate then uses u32 limbs, its
+        // [u32; 10] copy of 5^135 and 9-digit chunks.  (1) every power constant, (2) generated boundary
+        // inputs judged by the exact oracle, in the default, compact and alloc configurations.
+        println!("MIRI-L32 pointer width = {} bits", usize::BITS);
+        for ci in [0usize, 1, 2] {
+            println!("MIRI-CASE L32 tables {}", mlv::cfgs::CFGS[ci].name);
+            if let Err(f) = mlv::props::c14::check_limb_dependent(&mlv::cfgs::CFGS[ci], &mut st) {
+                println!("MIRI-VIOLATION L32 tables: {}", f.message);
+                std::process::exit(1);
+            }
+        }
+        let cfgs: Vec<&'static mlv::cfgs::Cfg> = vec![&mlv::cfgs::CFGS[0], &mlv::cfgs::CFGS[1], &mlv::cfgs::CFGS[2]];
+        let lim = mlv::gen::Limits { long: 300, huge: 800 };
+        for i in start..start + count {
+            let mut bytes = Vec::with_capacity(96);
+            let mut s = mix(seed ^ (i + 1).wrapping_mul(0x9e37_79b9_7f4a_7c15));
+            for _ in 0..12 {
+                s = mix(s);
+                bytes.extend(s.to_le_bytes());
+            }
+            let r = recipe_from_bytes(&bytes);
+            for fmt in [mlv::oracle::Fmt::F64, mlv::oracle::Fmt::F32] {
+                let c = mlv::gen::mixed_no_table(fmt, &r, lim);
+                println!("MIRI-CASE L32 {i} {} {} / {}", fmt.name(), c.family, c.variant);
+                if let Err(f) = mlv::props::common::check_rounding(fmt, &c, &cfgs) {
+                    println!("MIRI-VIOLATION L32 {i}: {}", f.message);
+                    std::process::exit(1);
+                }
+            }
+        }
+        println!("MIRI-OK L32 cases={count} start={start} seed={seed} table_entries={}", st.evaluations);
+        return;
+    }
     for i in start..start + count {
         let mut bytes = Vec::with_capacity(96);
         let mut s = mix(seed ^ (i + 1).wrapping_mul(0x9e37_79b9_7f4a_7c15));
